@@ -1,5 +1,5 @@
 (* C18 — soundness of the reflective flag-binding checker (Model/FlagsCheck.v) *)
-From FRP Require Import Model.FlagsCheck.
+From FRP Require Import Model.FlagsCheck Proofs.MsgObjProofs.
 Open Scope Z_scope.
 
 Lemma fc_nodup_NoDup l : fc_nodup l = true -> NoDup l.
@@ -77,4 +77,39 @@ Proof.
     rewrite H1 in Hu. apply andb_true_iff in Hu. apply fc_nodup_NoDup. tauto.
   - unfold fc_union_ok in Hu. rewrite H in Hu. rewrite forallb_forall in Hu. specialize (Hu _ H0). cbn [fst snd] in Hu.
     rewrite H1 in Hu. apply andb_true_iff in Hu. apply fc_nodup_NoDup. tauto.
+Qed.
+
+(* ---- BoolFuncFlag / dashboard TLS ---- *)
+Lemma existsb_bytes_In s l : existsb (bytes_eqb s) l = true <-> In s l.
+Proof.
+  rewrite existsb_exists. split.
+  - intros (x & Hx & E). apply bytes_eqb_eq in E. now subst.
+  - intros H. exists s. split; [exact H|apply bytes_eqb_refl].
+Qed.
+
+Lemma bff_parse_bool_true s : bff_parse_bool s = Some true <-> In s bff_trues.
+Proof.
+  unfold bff_parse_bool. rewrite <- existsb_bytes_In.
+  destruct (existsb (bytes_eqb s) bff_trues); [tauto|].
+  destruct (existsb (bytes_eqb s) bff_falses); split; discriminate.
+Qed.
+
+Lemma bff_parse_bool_false s : bff_parse_bool s = Some false <-> In s bff_falses.
+Proof.
+  unfold bff_parse_bool. split.
+  - destruct (existsb (bytes_eqb s) bff_trues); [discriminate|].
+    destruct (existsb (bytes_eqb s) bff_falses) eqn:E; [|discriminate]. intros _. now apply existsb_bytes_In.
+  - intros H. assert (Ht : existsb (bytes_eqb s) bff_trues = false).
+    { cbn in H. repeat (destruct H as [<-|H]; [vm_compute; reflexivity|]). contradiction. }
+    rewrite Ht. apply existsb_bytes_In in H. now rewrite H.
+Qed.
+
+(* the dashboard TLS setting given through the flags equals the setting given through the file *)
+Theorem dashboard_tls_flag_matches_file mode cert key :
+  (bff_parse_bool mode = Some true -> flags_web_tls mode cert key = Some (file_web_tls (Some (cert, key)))) /\
+  (bff_parse_bool mode = Some false -> flags_web_tls mode cert key = Some (file_web_tls None)) /\
+  (bff_parse_bool mode = None -> flags_web_tls mode cert key = None).
+Proof.
+  unfold flags_web_tls, bff_enables_tls, bff_set.
+  repeat split; intros H; rewrite H; reflexivity.
 Qed.
